@@ -34,7 +34,18 @@ def Lang.canon : Lang → Array Nat
   | .czech => Canonical.Czech
   | .portuguese => Canonical.Portuguese
 
-def Lang.words (L : Lang) : List Str := L.canon.toList.map unpack
+/-- the canonical list as item lists (each arm is a closed term, evaluated once by compiled code) -/
+def Lang.words : Lang → List Str
+  | .chineseSimplified => Canonical.ChineseSimplified.toList.map unpack
+  | .chineseTraditional => Canonical.ChineseTraditional.toList.map unpack
+  | .english => Canonical.English.toList.map unpack
+  | .french => Canonical.French.toList.map unpack
+  | .italian => Canonical.Italian.toList.map unpack
+  | .japanese => Canonical.Japanese.toList.map unpack
+  | .korean => Canonical.Korean.toList.map unpack
+  | .spanish => Canonical.Spanish.toList.map unpack
+  | .czech => Canonical.Czech.toList.map unpack
+  | .portuguese => Canonical.Portuguese.toList.map unpack
 
 /-- the declared identifier -/
 def Lang.name : Lang → String
